@@ -264,12 +264,18 @@ def producers(rep):
                     rep.ob("O10.2", "SIB", fi, "get_rc(" in k, f"core=True: K = {k[:60]}", "with core=True the rule is written from the reaction centre")
         rep.need("SIB", n_paths, 2, f"paths through {q} that reach NXToGML.transform")
     # both producers forward the same options
+    extras_by_q = {}
     for q in ("its_to_gml", "smart_to_gml"):
         fi = rep.f(CONV, q)
         c = [x for x in walk_local(fi.node) if isinstance(x, ast.Call) and call_name(x) == "transform"]
         kws = {k.arg: norm(k.value) for k in c[0].keywords} if c else {}
-        ok = kws == {"reindex": "reindex", "rule_name": "rule_name", "explicit_hydrogen": "explicit_hydrogen"}
-        rep.ob("O10.2", "SIB", fi, ok, kws, "options are forwarded unchanged to the GML writer")
+        want = {"reindex": "reindex", "rule_name": "rule_name", "explicit_hydrogen": "explicit_hydrogen"}
+        got = {k_: (norm(kwarg(c[0], k_)) if c and kwarg(c[0], k_) is not None else None) for k_ in want}
+        # further options (new, opt-in ones) are the writer's business; the two producers have to pass the same ones
+        extras_by_q[q] = {k_: v_ for k_, v_ in kws.items() if k_ not in want}
+        rep.ob("O10.2", "SIB", fi, got == want, kws, "options are forwarded unchanged to the GML writer")
+    if len(extras_by_q) == 2 and len({tuple(sorted(v.items())) for v in extras_by_q.values()}) != 1:
+        rep.ob("O10.2", "SIB", rep.f(CONV, "its_to_gml"), None, extras_by_q, "the two producers pass different further options to the GML writer")
     g2i = rep.f(CONV, "gml_to_its")
     d = local_defs(g2i.node)
     grets = returns_of(g2i.node)
